@@ -187,6 +187,9 @@ def inv22(dll):
             and keys_forall(dll._snd_buffer, lambda k, r: snd22_ok(dll, k, r))
             and keys_forall(dll._rcv_buffer, lambda k, r: rcv22_ok(dll, k, r))
             and keys_forall(dll._multi_pg_snd_buffer, lambda k, r: mpg22_ok(dll, k, r))
+            # every collection buffer is a record of its own
+            and forall(lambda a, b: implies(has_key(dll._multi_pg_snd_buffer, a) and has_key(dll._multi_pg_snd_buffer, b) and a != b,
+                                            dll._multi_pg_snd_buffer[a] != dll._multi_pg_snd_buffer[b]))
             # a session number is held by at most one send session of its kind
             and forall(lambda a, b: implies(has_key(dll._snd_buffer, a) and has_key(dll._snd_buffer, b) and a != b
                                             and (dll._snd_buffer[a]['dest_address'] == 255) == (dll._snd_buffer[b]['dest_address'] == 255),
